@@ -105,10 +105,7 @@ theorem ack_live (pick : Pick) {t : Nat} {s : State} (h : LiveP t s) (ok : Bool)
   obtain ⟨hn, hti, hok, hrun, hp⟩ := h
   have hJ := ack_J pick hn ok
   have hN : (s.ack pick ok).pc ≠ .exited → NInv (s.ack pick ok) := by
-    intro hne
-    rcases hJ with hf | hn'
-    · exact absurd hf.pc hne
-    · exact hn'
+    intro _; exact hJ
   obtain ⟨peer, maxRetries, builders, nextTopic, token, done, sender, pc, closedStreams, waiters,
     nextTicket, topics, pubClosed, alloc, log⟩ := s
   cases pc with
